@@ -270,9 +270,10 @@ def programs(tier):
                   ("or", ("not", ("and", L, L)), ("and", L, ("or", L, L)))]
         for t in shapes:
             nt, _ = number(t)
-            for kinds in kind_assignments(5, "quick")[:3]:
+            for ki, kinds in enumerate(kind_assignments(5, "quick")[:3]):
                 progs.append((nt, kinds, False))
-                progs.append((nt, kinds, True))
+                if ki == 0:
+                    progs.append((nt, kinds, True))   # un-parenthesised spelling: one operand-kind assignment (3^5 paths each)
     return progs
 
 
